@@ -293,7 +293,8 @@ def run(tier, seed):
             meta = {"repos": repos_spec, "how": how}
             try:
                 def cl(nm, t):
-                    return {"name": "cl%d" % nm, "description": "tag%d" % t, "storage": {"type": "memory"}}
+                    # the name inside the cluster configuration need not be the key the repository files it under
+                    return {"name": ("cl%d" % nm) if t % 2 else ("name%d_of_tag%d" % (nm, t)), "description": "tag%d" % t, "storage": {"type": "memory"}}
                 if how == "objects":
                     env = Environment(name="x", base_dir=scratch, repos=[ConfigurationRepository(name="r%d" % i, clusters={"cl%d" % nm: FunctionCluster(config=cl(nm, t)) for nm, t in row}) for i, row in enumerate(repos_spec)])
                 elif how == "prepend-append":
